@@ -11,7 +11,7 @@ import scipy.sparse as sp
 
 from rv import contracts
 
-N_CASES = {'quick': 24000, 'thorough': 600000}
+N_CASES = {'quick': 60000, 'thorough': 600000}
 TIMEOUT = {'quick': 1500, 'thorough': 6 * 3600}
 ANCHORS = ['subroutines:sparse_mul', 'subroutines:sp_matmul', 'subroutines:sp_lmatmul',
            'subroutines:sv_to_csr', 'subroutines:sp_trans',
@@ -21,7 +21,7 @@ ANCHORS = ['subroutines:sparse_mul', 'subroutines:sp_matmul', 'subroutines:sp_lm
            'lp:RoAffine.__matmul__', 'lp:RoAffine.sum', 'lp:Affine.rand_to_roaffine',
            'lp:concat', 'lp:rstack', 'lp:cstack', 'lp:vec',
            'lp:Affine.diag', 'lp:Affine.tril', 'lp:Affine.triu', 'lp:Affine.trace']
-FLOORS = {'judged': {'quick': 5000, 'thorough': 100000}, 'nontrivial': 200,
+FLOORS = {'judged': {'quick': 12500, 'thorough': 100000}, 'nontrivial': 200,
           'counters': {'contract:sparse_mul': 100, 'contract:sp_matmul': 50,
                        'contract:sp_lmatmul': 50, 'contract:sv_to_csr': 100,
                        'contract:sp_trans': 20}}
